@@ -1,0 +1,6 @@
+//go:build verif
+
+package epd
+
+// VerifShuffleIndex exposes shuffleIndex (build tag verif).
+func VerifShuffleIndex(x, n, seed uint64) uint64 { return shuffleIndex(x, n, seed) }
